@@ -466,7 +466,7 @@ fn corpus_cut_positions(len: usize, quick: bool) -> Vec<usize> {
     if len <= 4096 {
         return (1..len).collect();
     }
-    let target = if quick { 128 } else { 4096 };
+    let target = if quick { 1024 } else { 16384 };
     let stride = (len / target).max(1) | 1;
     (1..len).filter(|p| p % stride == 1 % stride).collect()
 }
@@ -476,7 +476,7 @@ fn run_corpus(ctx: &mut Ctx, rep: &mut Report, base_idx: &mut u64) {
     rep.space(
         SP_CORPUS,
         "bundled files (benches/JASPAR2024.pwm 2346 records, benches/prodoric.transfac 353 records, the 8 files of lightmotif-io/tests; DNA readers) x \
-         {every uniform chunk size 1..=128, 4096, 8192; single cuts: every position for files <= 4096 bytes, otherwise every position p = 1 mod s with s = (len/128)|1 (thorough: (len/4096)|1); all pairs of cuts for files <= 400 bytes}; \
+         {every uniform chunk size 1..=128, 4096, 8192; single cuts: every position for files <= 4096 bytes, otherwise every position p = 1 mod s with s = (len/1024)|1 (thorough: (len/16384)|1); all pairs of cuts for files <= 400 bytes}; \
          oracle: the whole-file read returns only records, as many as a textual count of headers/terminators, then None twice; every chunking returns the identical item sequence (ids, metadata, all matrix entries); non-trivial = chunkings with at least one cut inside the file",
     );
     let mut tally = Tally::default();
